@@ -30,6 +30,12 @@ type VerifC16State struct {
 	BareRanges int
 	Uptime     int
 	LabelEver  bool // the bare metric had series with the selector's label value at some point of the window
+	// a second selector of the same rule (two-selector jobs; Selector2 == "" = none): same meaning as above
+	Selector2   string
+	Bare2       string
+	Count2      int
+	BareRanges2 int
+	LabelEver2  bool
 }
 
 var (
@@ -45,13 +51,19 @@ func (verifC16Err) Error() string { return "uptime query failed" }
 func verifStub_promapi_FailoverGroup_Query(fg *FailoverGroup, ctx context.Context, expr string) (*QueryResult, error) {
 	VerifC16Probes = append(VerifC16Probes, "query "+expr)
 	qr := &QueryResult{URI: fg.uri, Series: []Sample{}}
-	if expr != "count("+VerifC16.Selector+")" {
+	n := 0
+	switch {
+	case expr == "count("+VerifC16.Selector+")":
+		n = VerifC16.Count
+	case VerifC16.Selector2 != "" && expr == "count("+VerifC16.Selector2+")":
+		n = VerifC16.Count2
+	default:
 		VerifC16Other++
 		return qr, nil
 	}
-	if VerifC16.Count > 0 {
+	if n > 0 {
 		// count() over a non-empty vector is one sample without labels
-		qr.Series = append(qr.Series, Sample{Labels: labels.Labels{}, Value: float64(VerifC16.Count)})
+		qr.Series = append(qr.Series, Sample{Labels: labels.Labels{}, Value: float64(n)})
 	}
 	return qr, nil
 }
@@ -80,9 +92,18 @@ func verifStub_promapi_FailoverGroup_RangeQuery(fg *FailoverGroup, ctx context.C
 				{Labels: labels.Labels{}, Start: end.Add(-sixth), End: end},
 			}
 		}
+	case "count(" + VerifC16.Bare2 + ")":
+		// (only reached in two-selector jobs: with Bare2 == "" the text is "count()", which pint never asks)
+		if VerifC16.BareRanges2 >= 1 {
+			res.Series.Ranges = MetricTimeRanges{whole}
+		}
 	case "count(" + VerifC16.Selector + ")":
 		// history of the metric with the selector's label value: whenever the bare metric was there, or never
 		if VerifC16.LabelEver && VerifC16.BareRanges >= 1 {
+			res.Series.Ranges = MetricTimeRanges{whole}
+		}
+	case "count(" + VerifC16.Selector2 + ")":
+		if VerifC16.LabelEver2 && VerifC16.BareRanges2 >= 1 {
 			res.Series.Ranges = MetricTimeRanges{whole}
 		}
 	default:
